@@ -38,7 +38,7 @@ Print Assumptions C16_retained_restored.
 (* a subscription that survived receives what is published after the restart: queued while the
    client is away, delivered at its next CONNECT *)
 Theorem C16_restored_subscription_works : forall s tag t id,
-  s_conn (get id (sess s)) = None -> existsb (N.eqb t) (s_subs (get id (sess s))) = true ->
+  s_conn (get id (sess s)) = None -> existsb (smatch false t) (s_subs (get id (sess s))) = true ->
   s_queue (get id (sess (fst (publish s tag t)))) = s_queue (get id (sess s)) ++ [tag].
 Proof.
   intros s tag t id Hc Hs. rewrite publish_rec. unfold pub_rec. rewrite Hs, Hc. reflexivity.
@@ -46,7 +46,7 @@ Qed.
 Print Assumptions C16_restored_subscription_works.
 
 Example C16_nonvacuous :
-  concat (snd (run (init true) [EConnect 1%N 7%N false false None None; ESubscribe 7%N 3%N; ERetain 50%N 4%N; EStop; ERestart;
-                                EPublish 40%N 3%N; EConnect 2%N 7%N false false None None; ESubscribe 7%N 4%N])) =
+  concat (snd (run (init true) [EConnect 1%N 7%N false false None None; ESubscribe 7%N 6%N; ERetain 50%N 4%N; EStop; ERestart;
+                                EPublish 40%N 3%N; EConnect 2%N 7%N false false None None; ESubscribe 7%N 8%N])) =
     [OConnack 1%N false 0%N; OClosed 1%N RShutdown; OStopReturned; OConnack 2%N true 0%N; ODeliver 2%N 40%N; ODeliver 2%N 50%N].
 Proof. vm_compute. reflexivity. Qed.
